@@ -1,0 +1,14 @@
+//go:build verif
+
+package admitter
+
+// Contracts for govc (see /verif/DESIGN.md). Comment-only file: no executable code.
+
+// C07: with a namespace selection, a process is admitted exactly when its namespace is one of the selected ones.
+//@ func (n *NamespaceAdmitter) Admit
+//@   ensures all: len(n.EnabledNamespaces) == 0 ==> result
+//@   ensures member: len(n.EnabledNamespaces) != 0 && result ==> (exists i int :: 0 <= i && i < len(n.EnabledNamespaces) && n.EnabledNamespaces[i] == proc.Namespace)
+//@   ensures non-member: len(n.EnabledNamespaces) != 0 && !result ==> (forall i int :: 0 <= i && i < len(n.EnabledNamespaces) ==> n.EnabledNamespaces[i] != proc.Namespace)
+//@   assigns nothing
+//@   loop 1 invariant idx >= -1
+//@   loop 1 invariant forall j int :: 0 <= j && j <= idx ==> n.EnabledNamespaces[j] != proc.Namespace
